@@ -13,7 +13,7 @@
      track / precond_ok              the boolean tracker of the documented incremental-sync precondition
      row_is m a s S f                row (s,a) of the model holds finite cells equal (==) to f 0 .. f (S-1) *)
 From Coq Require Import List Arith ZArith QArith Bool.
-From AIT Require Import Base.Qx C07.Model C07.Spec C07.ProofsExp C07.ProofsMl C07.ProofsInv C07.ProofsTop C07.ProofsExtra.
+From AIT Require Import Base.Qx C07.Model C07.Spec C07.ProofsExp C07.ProofsMl C07.ProofsInv C07.ProofsTop C07.ProofsExtra C07.ProofsCoop.
 Import ListNotations.
 Local Open Scope Q_scope.
 
@@ -52,6 +52,29 @@ Print Assumptions bandit_welford_exact.
 Example ex_bandit_nonvacuous :
   let ops := [BRecord 1 (1#2); BRecord 1 (-3#1); BReset; BRecord 0 2; BRecord 0 4] in
   forallb (bop_in_range 2) ops = true /\ nth 0 (b_avg (bexp_after 2 ops)) 0 == 3 /\ nth 0 (b_m2 (bexp_after 2 ops)) 0 == 2.
+Proof. cbv zeta. repeat split; vm_compute; reflexivity. Qed.
+
+(* the same for the factored CooperativeExperience: every row (DDN-graph id) of every node reports the
+   visit counts per next value, their sum, the mean and M2 of exactly the joint records that map to
+   that row since the last reset; timesteps = number of joint records *)
+Theorem coop_welford_exact : forall g ops, forallb (cop_ok g) ops = true ->
+  let e := cexp_after g ops in let h := chist_of ops in
+  c_ts e = length h /\
+  forall i, (i < length (cgS g))%nat -> forall id, (id < cg_size g i)%nat ->
+    let x := cnode e i in let hi := map (cproj g i) h in let ncol := nth i (cgS g) 0%nat in
+    (forall v, (v < ncol)%nat -> get2 0%nat (r_vis x) id v = row_count hi id v) /\
+    get2 0%nat (r_vis x) id ncol = length (row_rewards hi id) /\
+    nth id (r_avg x) 0 == mean (row_rewards hi id) /\
+    nth id (r_m2 x) 0 == m2 (row_rewards hi id).
+Proof. exact coop_welford_exact_lemma. Qed.
+Print Assumptions coop_welford_exact.
+
+Example ex_coop_nonvacuous :
+  let g := mkCG [2; 3]%nat [2]%nat [([0%nat], [[0%nat]; [0; 1]%nat]); ([0%nat], [[1%nat]; [0%nat]])] in
+  let ops := [CRecord [1; 2]%nat [1%nat] [0; 1]%nat [1; 2]; CRecord [1; 2]%nat [1%nat] [1; 1]%nat [3; 2]; CReset;
+              CRecord [1; 2]%nat [1%nat] [1; 0]%nat [5; 1]; CRecord [1; 2]%nat [1%nat] [0; 0]%nat [7; 1]] in
+  forallb (cop_ok g) ops = true /\ cg_id g 0 [1; 2]%nat [1%nat] = 7%nat /\ cg_size g 0 = 8%nat /\
+  nth 7 (r_avg (cnode (cexp_after g ops) 0)) 0 == 6 /\ nth 7 (r_m2 (cnode (cexp_after g ops) 0)) 0 == 2.
 Proof. cbv zeta. repeat split; vm_compute; reflexivity. Qed.
 
 (* setVisitsTable: the sums are the row sums of the table that was set *)
